@@ -8,6 +8,8 @@ import (
 	"math/bits"
 	"path/filepath"
 	"strings"
+
+	"github.com/alicebob/sqlittle/sql"
 )
 
 const (
@@ -49,6 +51,8 @@ type header struct {
 	ChangeCounter uint32
 	// Updated when any table definition changes
 	SchemaCookie uint32
+	// Schema formats 2 and 3: DESC in index definitions is ignored.
+	IgnoreDesc bool
 }
 
 type objectCache struct {
@@ -200,7 +204,10 @@ func parseHeader(b []byte) (header, error) {
 	case 1:
 		// Version 1 ignores 'DESC' on indexes.
 		return h, ErrIncompatible
-	case 2, 3, 4:
+	case 2, 3:
+		// So do 2 and 3: only in format 4 DESC means something.
+		h.IgnoreDesc = true
+	case 4:
 	default:
 		return h, ErrIncompatible
 	}
@@ -567,7 +574,23 @@ func (db *Database) Schema(table string) (*Schema, error) {
 	if err != nil {
 		return nil, err
 	}
-	return newSchema(table, m)
+	s, err := newSchema(table, m)
+	if err != nil {
+		return nil, err
+	}
+	if db.header != nil && db.header.IgnoreDesc {
+		// Legacy schema formats: SQLite accepts DESC in a definition and
+		// stores the index ascending all the same.
+		for i := range s.PK {
+			s.PK[i].SortOrder = sql.Asc
+		}
+		for i := range s.Indexes {
+			for j := range s.Indexes[i].Columns {
+				s.Indexes[i].Columns[j].SortOrder = sql.Asc
+			}
+		}
+	}
+	return s, nil
 }
 
 // Info gives some debugging info about the open database
